@@ -41,8 +41,8 @@ def default_world(seed=1, k=5, prefix='AT', names='plain', hidden_root=False):
         dict(name=nm('Sp1', 'A sp.\n1'), rank='species', parent=1, thr=0.5, report=True, ncbi_id=101),
         dict(name=nm('Sp2', 'A spéc 2 ✓'), rank='species', parent=1, thr=0.375, report=True, ncbi_id=None),
         dict(name=nm('Sp1a', 'A sp1 "a"\r\nx'), rank='subspecies', parent=2, thr=0.25, report=False, ncbi_id=103),
-        dict(name=nm('GenusB', ' Genus B '), rank='genus', parent=0, thr=0.75, report=True, ncbi_id=200),
-        dict(name=nm('SpB1', 'B,sp,1'), rank=None, parent=5, thr=0.4375, report=True, ncbi_id=201),
+        dict(name=nm('GenusB', ' Genus\rB '), rank='genus', parent=0, thr=0.75, report=True, ncbi_id=200),
+        dict(name=nm('SpB1', 'B,sp,1\r'), rank=None, parent=5, thr=0.4375, report=True, ncbi_id=201),
     ]
     if hidden_root:
         # a lineage that is unreportable all the way to its root: predictions there have NO reported taxon
